@@ -126,7 +126,10 @@ M = [
     ("C16", "temporary-not-consumed", P + "proxy/region.py", "                if cap_type == CapType.TEMPORARY and consume:",
      "                if cap_type == CapType.TEMPORARY and consume and False:"),
     ("C16", "proxy-caps-sent-upstream", P + "proxy/http_event_manager.py",
-     "                    parsed_seed.remove(known_cap_name)\n", ""),
+     "                    parsed_seed = [name for name in parsed_seed if name != known_cap_name]\n", ""),
+    ("C16", "proxy-cap-first-occurrence-only", P + "proxy/http_event_manager.py",
+     "                    parsed_seed = [name for name in parsed_seed if name != known_cap_name]\n",
+     "                    parsed_seed.remove(known_cap_name)\n"),
     ("C16", "proxy-cap-new-url", P + "proxy/region.py", "            if cap_type == CapType.PROXY_ONLY:\n                return cap_url",
      "            if cap_type == CapType.PROXY_ONLY and cap_url is None:\n                return cap_url"),
     ("C16", "asset-caps-attributed", P + "proxy/sessions.py",
